@@ -25,6 +25,7 @@ pub mod c10_width;
 pub mod c10_spec;
 pub mod c11_safe;
 pub mod c11_parse;
+pub mod c11_date;
 pub mod c12_json;
 pub mod c13_builder;
 pub mod c15_swap;
@@ -58,6 +59,7 @@ pub fn tables() -> Vec<(&'static str, &'static [(&'static str, fn())])> {
         ("c10_spec", c10_spec::TABLE),
         ("c11_safe", c11_safe::TABLE),
         ("c11_parse", c11_parse::TABLE),
+        ("c11_date", c11_date::TABLE),
         ("c12_json", c12_json::TABLE),
         ("c13_builder", c13_builder::TABLE),
         ("c15_swap", c15_swap::TABLE),
